@@ -863,6 +863,10 @@ def units_eval(case, h):
             (ops.Xgate(case["x"]).H if case["dg"] else ops.Xgate(case["x"])) | q[k]
             ops.Zgate(case["p"]) | q[k]
             ops.MeasureHomodyne(case["phi"], select=case["sel"]) | q[(k + 1) % n]
+        # a post-selected homodyne draws its unreported conjugate quadrature from numpy's global generator (finite-squeezing
+        # projector, eps = 2e-4): the two runs compared below must see the same draw, or their means differ by ~1e-6 * sqrt(hbar)
+        # (false alarm of the thorough tier, seed 5, hbar = 7.3)
+        np.random.seed(97531)
         res = sf.Engine("gaussian").run(prog)
         exp = r.copy()
         if (k + 1) % n != k:
@@ -874,6 +878,7 @@ def units_eval(case, h):
             with prog0.context as q:
                 ops.Gaussian(V, r, decomp=case["decomp"]) | tuple(q[i] for i in range(n))
                 ops.MeasureHomodyne(case["phi"], select=case["sel"]) | q[(k + 1) % n]
+            np.random.seed(97531)
             m0 = sf.Engine("gaussian").run(prog0).state.means()
             d = m - m0
             want = np.zeros(2 * n)
